@@ -7,7 +7,6 @@ import (
 	"os"
 	"sort"
 	"strings"
-	"sync/atomic"
 	"time"
 
 	"github.com/syndtr/goleveldb/leveldb"
@@ -905,8 +904,8 @@ func (x *dbExec) iterWalk(o op) bool {
 
 // faultWalk: a fresh DB iterator walked while the FaultK-th table read fails (non-corruption error).  Until
 // Error() is set the outputs must be the cursor's; once it is set every call returns false, not valid, nil
-// key and value, and the error stays.  The one tolerated deviation is the known defect of dbIter.prev()
-// (a stale pair returned by a backward call after the read failed, error not yet recorded).
+// key and value, and the error stays.  (Before 35e2053 dbIter.prev() could return a stale pair here:
+// findings/C02_dbiter_prev_stale_db_level.json is kept as a regression input.)
 func (x *dbExec) faultWalk(o op) bool {
 	var ro *opt.ReadOptions
 	if o.NoFill {
@@ -927,7 +926,7 @@ func (x *dbExec) faultWalk(o op) bool {
 	f := &vstor.Fault{Kind: vstor.OpRead, Type: storage.TypeTable, K: o.FaultK}
 	x.vs.AddFault(f)
 	defer x.vs.Heal()
-	bad, known := "", ""
+	bad := ""
 	hung, pan := runGuarded(30*time.Second, func() {
 		it := x.db.NewIterator(rg, ro)
 		defer it.Release()
@@ -957,11 +956,7 @@ func (x *dbExec) faultWalk(o op) bool {
 			}
 			ok, k, v := cur.apply(m)
 			if ob.Ret != ok || it.Valid() != ok || (ok && (!bytes.Equal(ob.Key, k) || !bytes.Equal(ob.Value, v))) || (!ok && (ob.Key != nil || ob.Value != nil)) {
-				d := fmt.Sprintf("call %d %s under a table read fault (reads failed so far: %d): returned %v key %x value %x, Error nil, cursor says %v key %x value %x", i, m, f.Hits, ob.Ret, ob.Key, ob.Value, ok, k, v)
-				if f.Hits > 0 && ob.Ret && (m.Op == "L" || m.Op == "P") {
-					known = "dbiter-prev-stale-on-raw-error"
-				}
-				bad = d
+				bad = fmt.Sprintf("call %d %s under a table read fault (reads failed so far: %d): returned %v key %x value %x, Error nil, cursor says %v key %x value %x", i, m, f.Hits, ob.Ret, ob.Key, ob.Value, ok, k, v)
 				return
 			}
 		}
@@ -977,14 +972,6 @@ func (x *dbExec) faultWalk(o op) bool {
 	case pan != nil:
 		x.violate(fmt.Sprintf("fault walk: panic %v", pan))
 		return false
-	case bad != "" && known != "":
-		x.res.Count("db_fault_known_"+known, 1)
-		// reported once per run at DB level (and twice at component level, errors.go)
-		if atomic.AddInt32(&knownReportedDB, 1) <= 1 {
-			atomic.AddInt32(&knownReported, 1)
-			x.res.ViolateKnown(fmt.Sprintf("DB iterator (%s, comparer %d): %s", x.label, x.c.Cid, bad), x.c, known)
-		}
-		return true
 	case bad != "":
 		x.violate("fault walk: " + bad)
 		return false
